@@ -313,6 +313,21 @@ theorem nested_wrappers_detach_with_parent (fld : Nat → Nat → Nat) (t : WT) 
     (h : (t.setRV fld c).sub σ = some k) : mem' k.loc = mem (pathAddr fld t.loc σ) := by
   rw [WT.setRV_sub fld σ t c k h]; exact hcopy σ
 
+/-- NESTED WRAPPERS, ALL HISTORIES.  Starting from a freshly created element wrapper, after ANY sequence of handing out
+    nested wrappers (at any depth, for any fields, in any order) and re-pointing the element wrapper (detach to a
+    copy, sort swaps, re-allocations), every nested wrapper that exists refers to the corresponding field of the
+    value the element wrapper refers to NOW: it follows its parent on every swap / re-allocation and detaches with
+    it into the same copy. -/
+theorem nested_wrappers_pointed_all_histories (fld : Nat → Nat → Nat) (a0 : Nat) (ops : List WOp) (σ : List Nat) (k : WT)
+    (h : ((WT.node a0 []).runW fld ops).sub σ = some k) :
+    k.loc = pathAddr fld ((WT.node a0 []).runW fld ops).loc σ := by
+  have h0 : (WT.node a0 []).Pointed fld := by
+    intro τ k' hs
+    cases τ with
+    | nil => simp only [WT.sub, Option.some.injEq] at hs; subst hs; rfl
+    | cons m τ' => simp [WT.sub, WT.kids, lookupKid] at hs
+  exact WT.runW_pointed fld ops _ h0 σ k h
+
 /-- Regression record of the mechanism before a40b0ef (setReflectValue moved only the wrapper itself): the nested
     wrapper keeps pointing into the old location. -/
 theorem nested_wrapper_shallow_prefix_witness :
@@ -653,7 +668,7 @@ theorem goslice_grow_no_clear_prefix_witness :
         all properties / all elements, each converted for its own destination type and pointing at the cached value
         of (child, that type);
     (3) every allocated value is completed; (4) the result is the value cached for (root, root type). -/
-theorem exportTo_one_identity_per_object_and_type (js : Nat → JFields) (tys : Nat → TyDef) (asU : Nat → Nat → Bool)
+theorem exportTo_one_identity_per_object_and_type_of_ok (js : Nat → JFields) (tys : Nat → TyDef) (asU : Nat → Nat → Bool)
     (fuel root : Nat) (ty : Ty)
     (hok : (expTo js tys asU fuel TCtx.empty (.ref root) ty).1.ok = true) :
     let r := expTo js tys asU fuel TCtx.empty (.ref root) ty
@@ -682,6 +697,20 @@ theorem exportTo_one_identity_per_object_and_type (js : Nat → JFields) (tys : 
     exact hgood hok e this
   · have : r.1.out.length + TCtx.empty.cache.length = TCtx.empty.out.length + r.1.cache.length := hext.count
     simpa [TCtx.empty] using this
+
+/-- The same with no hypothesis about the recursion: on a heap of N objects and a closed table of T destination types,
+    N·(T+1) + 1 units of fuel always suffice (every nested call has put a new (object, type) pair into the cache). -/
+theorem exportTo_one_identity_per_object_and_type (js : Nat → JFields) (tys : Nat → TyDef) (asU : Nat → Nat → Bool)
+    (N T root fuel : Nat) (ty : Ty) (hcl : ClosedJ js N) (htc : TyClosed tys T) (hr : root < N) (hty : TyIn T ty)
+    (hf : N * (T + 1) + 1 ≤ fuel) :
+    let r := expTo js tys asU fuel TCtx.empty (.ref root) ty
+    r.1.ok = true ∧
+    (∀ (a b : Nat) (key : Nat × Nat), r.1.cache[a]? = some key → r.1.cache[b]? = some key → a = b) ∧
+    (∀ e ∈ r.1.out, OutGoodT js tys asU r.1.cache e) ∧
+    r.1.out.length = r.1.cache.length ∧
+    ImgT asU r.1.cache (.ref root) ty r.2 := by
+  have hok := expTo_root_ok js tys asU N T root fuel ty hcl htc hr hty hf
+  exact ⟨hok, exportTo_one_identity_per_object_and_type_of_ok js tys asU fuel root ty hok⟩
 
 /-! ### the two-level identity cache (untyped entry + per-type items) of one ExportTo -/
 
